@@ -594,3 +594,266 @@ Proof.
   replace (Nat.leb capv 0) with false by (symmetry; apply Nat.leb_gt; exact Hcap).
   unfold rd_read. cbn [sched]. reflexivity.
 Qed.
+
+(* ---------- retry after an I/O error (outside quoted scalars) ---------- *)
+(* Known finding text-retry-in-quote: when the failed read happens while a quoted scalar is
+   pending, the window is repositioned AFTER the opening quote, so a retried call does not see
+   the scalar from its first byte.  Nothing is claimed for that case: the statement below
+   excludes positions whose fault-free verdict is a quoted scalar or Eof (an unterminated quote
+   is reported as Eof, and the pending state is not observable from outside). *)
+Definition qeof (res : tres) : Prop :=
+  match res with RTok (RQuo _) _ => True | REof _ => True | _ => False end.
+
+Definition retry_ok (capv nr : nat) (r' : reader) (ref : tres * nat) : Prop :=
+  fst (tk (startb r') (stream_of r')) = fst ref /\ snd (tk (startb r') (stream_of r')) <= snd ref /\
+  cap (rbw r') = capv /\ length (rest (rrd r')) <= nr.
+
+Lemma retry_ok_mono capv nr nr' r' ref ref' :
+  retry_ok capv nr r' ref -> fst ref = fst ref' -> snd ref <= snd ref' -> nr <= nr' -> retry_ok capv nr' r' ref'.
+Proof. intros (H1 & H2 & H3 & H4) E1 E2 E3. unfold retry_ok. rewrite <- E1. repeat split; try assumption; lia. Qed.
+
+Lemma refill_fill_f input b d bom c :
+  rokf input (mkreader b d bom) -> c <= length (win b) ->
+  let cb := skipn (length (win b) - c) (win b) in
+  let b1 := mkbw (cap b) cb (consumed b + (length (win b) - c)) (prior b) in
+  length cb = c /\
+  match bw_fill_buf b1 d with
+  | FillOk n b2 d2 => exists bs, length bs = n /\ rest d = bs ++ rest d2 /\ win b2 = cb ++ bs /\
+        cap b2 = cap b /\ bw_position b2 = bw_position b + (length (win b) - c) /\
+        (forall bom', rokf input (mkreader b2 d2 bom'))
+  | FillIo b2 d2 => win b2 = cb /\ rest d2 = rest d /\ cap b2 = cap b /\
+        bw_position b2 = bw_position b + (length (win b) - c)
+  | FillFull _ _ => True
+  end.
+Proof.
+  intros Hrok Hc cb b1.
+  pose proof (refill_fill input b (erd d) bom c (rok_erase _ _ Hrok) Hc) as [Hcb Hfill]. cbv zeta in Hcb, Hfill.
+  fold cb in Hcb, Hfill. fold b1 in Hfill. split; [exact Hcb|].
+  pose proof (fill_eq b1 d (erd d) (rdeq_erd d)) as Heq.
+  destruct (bw_fill_buf b1 d) as [n b2 d2|b2 d2|b2 d2] eqn:Ef; [| |exact I].
+  - destruct Heq as (d2' & Ef2 & (Hr & Hq)). rewrite Ef2 in Hfill.
+    destruct Hfill as (bs & H1 & H2 & H3 & H4 & H5 & H6 & _). exists bs. rewrite Hr. cbn [erd rest] in H2.
+    split; [exact H1|]. split; [exact H2|]. split; [exact H3|]. split; [exact H4|]. split; [exact H5|].
+    intros bom'. apply (rokf_of_rok input _ (mkreader b2 d2' bom')); [|apply H6].
+    unfold readeq. cbn [rbw rrd rbom]. unfold rdeq. auto.
+  - clear Heq Hfill. unfold bw_fill_buf in Ef. destruct (Nat.leb (cap b1) (length (win b1))).
+    + destruct (Nat.eqb (cap b1) 0); discriminate.
+    + destruct (rd_read d _) as [[bs d']| | | |]; [discriminate| | | |]; injection Ef as <- <-;
+        unfold bw_position, b1; cbn [win cap prior consumed rest rd_after_fail]; repeat split; lia.
+Qed.
+
+Lemma start_after_true pos bom bom' c wl :
+  c <= wl -> (N.eqb bom 0 = false -> bom' = bom) ->
+  Nat.eqb (pos + (wl - c)) 0 && N.eqb bom' 0 = true ->
+  Nat.eqb pos 0 && N.eqb bom 0 && Nat.eqb c wl = true.
+Proof.
+  intros Hc Hb H. apply andb_prop in H as [H1 H2]. apply Nat.eqb_eq in H1.
+  assert (pos = 0) by lia. assert (c = wl) by lia. subst. rewrite !Nat.eqb_refl, andb_true_r. cbn [andb].
+  destruct (N.eqb bom 0) eqn:E; [reflexivity|]. rewrite (Hb eq_refl) in H2. congruence.
+Qed.
+
+(* start only matters for the byte order mark; an atom recognised as unquoted with start = true
+   is the same unquoted atom with start = false *)
+Lemma item_unq_start_irrel s m : item true s = bump_item m (unq_item s) ->
+  exists m', m' <= m /\ item false s = bump_item m' (unq_item s).
+Proof.
+  destruct s as [|c s']; [intros H; exists m; split; [lia|exact H]|]. cbn [item].
+  destruct (is_ws c); [intros H; exists m; split; [lia|exact H]|].
+  destruct (b_is c 35); [intros H; exists m; split; [lia|exact H]|].
+  destruct (b_is c 123); [intros H; exists m; split; [lia|exact H]|].
+  destruct (b_is c 125); [intros H; exists m; split; [lia|exact H]|].
+  destruct (b_is c 34); [intros H; exists m; split; [lia|exact H]|].
+  destruct (b_is c 64); [intros H; exists m; split; [lia|exact H]|].
+  destruct (b_is c 61); [intros H; exists m; split; [lia|exact H]|].
+  destruct (b_is c 60); [intros H; exists m; split; [lia|exact H]|].
+  destruct (b_is c 33); [intros H; exists m; split; [lia|exact H]|].
+  destruct (b_is c 63); [intros H; exists m; split; [lia|exact H]|].
+  destruct (b_is c 62); [intros H; exists m; split; [lia|exact H]|].
+  rewrite andb_false_r. destruct (b_is c 239 && true); [|intros H; exists m; split; [lia|exact H]].
+  intros _. exists 0. split; [lia|]. rewrite bump_item_0. reflexivity.
+Qed.
+
+Lemma tk_unq_start start cb y : uinv start cb ->
+  forall start2, (start2 = true -> start = true) ->
+  fst (tk start2 (cb ++ y)) = fst (tk start (cb ++ y)) /\ snd (tk start2 (cb ++ y)) <= snd (tk start (cb ++ y)).
+Proof.
+  intros (Hne & Hfind & Hit) start2 Hs. destruct (Hit y) as (m & _ & Hm).
+  destruct start2, start; try (split; [reflexivity|lia]); [specialize (Hs eq_refl); discriminate|].
+  destruct (item_unq_start_irrel _ _ Hm) as (m' & Hle & Hm'). rewrite !tk_unfold, Hm, Hm'.
+  unfold unq_item. destruct (find_from is_boundary (tl (cb ++ y)) 0); cbn [bump_item fst snd]; split; try reflexivity; lia.
+Qed.
+
+Ltac noio H := try (unfold E_Eof, E_Io, E_BufferFull in H; discriminate H).
+
+Theorem refill_retry input : forall fuel r st c o start' r',
+  rokf input r -> c <= length (win (rbw r)) ->
+  pend st start' (skipn (length (win (rbw r)) - c) (win (rbw r))) o ->
+  (st = PNone -> start' = Nat.eqb (reader_position r + (length (win (rbw r)) - c)) 0 && N.eqb (rbom r) 0) ->
+  (st = PUnq -> Nat.eqb (reader_position r + (length (win (rbw r)) - c)) 0 && N.eqb (rbom r) 0 = true -> start' = true) ->
+  refill fuel r st c o = NErr E_Io r' ->
+  qeof (fst (tk start' (patom st (skipn (length (win (rbw r)) - c) (win (rbw r))) ++ rest (rrd r)))) \/
+  retry_ok (cap (rbw r)) (length (rest (rrd r))) r'
+           (tk start' (patom st (skipn (length (win (rbw r)) - c) (win (rbw r))) ++ rest (rrd r))).
+Proof.
+  induction fuel as [|f IH]; intros r st c o start' r' Hrok Hc Hpend Hstart Hstart2 Hres; [discriminate|].
+  destruct r as [b d bom]. cbn [rbw rrd rbom] in *.
+  cbn [refill rbw rrd rbom] in Hres.
+  replace (Nat.ltb (length (win b)) c) with false in Hres by (symmetry; apply Nat.ltb_ge; exact Hc).
+  destruct (refill_fill_f input b d bom c Hrok Hc) as [Hcb Hfill]. cbv zeta in Hcb, Hfill.
+  remember (skipn (length (win b) - c) (win b)) as cb eqn:Ecbdef. clear Ecbdef.
+  destruct (bw_fill_buf _ d) as [n b2 d2|b2 d2|b2 d2]; [| |noio Hres].
+  2:{ (* the read failed here *)
+      destruct Hfill as (Hw2 & Hr2 & Hcap2 & Hpos2). inversion Hres; subst r'. clear Hres.
+      assert (Hso : stream_of (mkreader b2 d2 bom) = cb ++ rest d) by (unfold stream_of; cbn [rbw rrd]; rewrite Hw2, Hr2; reflexivity).
+      assert (Hsb : startb (mkreader b2 d2 bom) = Nat.eqb (reader_position (mkreader b d bom) + (length (win b) - c)) 0 && N.eqb bom 0).
+      { unfold startb, reader_position. cbn [rbw rbom]. rewrite Hpos2. reflexivity. }
+      destruct st; cbn [pend patom] in *.
+      - right. unfold retry_ok. rewrite Hso, Hsb, <- Hstart by reflexivity. cbn [rbw rrd]. rewrite Hr2. auto.
+      - left. destruct Hpend as [-> _]. cbn [app]. rewrite tk_unfold, item_quote.
+        destruct (rq_scan (cb ++ rest d) 0); exact I.
+      - right. destruct Hpend as [Hu _]. unfold retry_ok. rewrite Hso, Hsb. cbn [rbw rrd]. rewrite Hr2.
+        destruct (tk_unq_start start' cb (rest d) Hu _ (Hstart2 eq_refl)) as [E1 E2]. auto. }
+  destruct Hfill as (bs & Hbs & Hsplit & Hw2 & Hcap2 & Hpos2 & Hrok2).
+  assert (Hlen2 : length (rest d2) <= length (rest d)) by (rewrite Hsplit, app_length; lia).
+  destruct n as [|n].
+  - (* end of the stream: no I/O error possible *)
+    exfalso. destruct st.
+    + destruct (Nat.eqb c 0 || _); [destruct (bw_advance b2 c); noio Hres|noio Hres].
+    + noio Hres.
+    + destruct (bw_advance b2 (length (win b2))); noio Hres.
+  - (* more data arrived *)
+    assert (Hstream : cb ++ rest d = win b2 ++ rest d2) by (rewrite Hw2, Hsplit, app_assoc; reflexivity).
+    destruct st; cbn [pend patom] in *.
+    + (* None: rescan the window from its start *)
+      cbn [rbw rrd rbom] in Hres.
+      pose proof (fb_sound (S (S (length (win b2)))) (Nat.eqb (bw_position b2) 0) (win b2) (win b2) 0 bom (rest d2)
+                    eq_refl ltac:(lia) ltac:(destruct (N.eqb bom 0); lia)) as Hfb.
+      rewrite Nat.eqb_refl, andb_true_r in Hfb.
+      assert (Hst : Nat.eqb (bw_position b2) 0 && N.eqb bom 0 = start').
+      { rewrite Hstart by reflexivity. rewrite Hpos2. reflexivity. }
+      rewrite Hst in Hfb. rewrite Hstream in *.
+      destruct (fb _ _ _ _ _ _) as [a bom'] eqn:Efb. destruct Hfb as [Hb1 Hfb]. cbn [fst snd] in Hb1, Hfb.
+      destruct a as [st' c' o'|t adv|site]; [| |contradiction].
+      * destruct Hfb as (Hc' & Hp' & Hb2 & (m & Hmle & Hm)).
+        rewrite Hm, fst_bump.
+        destruct (IH (mkreader b2 d2 bom') st' c' o' (start' && Nat.eqb c' (length (win b2))) r') as [Hq|Hr]; cbn [rbw rrd rbom].
+        -- apply Hrok2.
+        -- exact Hc'.
+        -- exact Hp'.
+        -- intros Hs. unfold reader_position. cbn [rbw]. rewrite <- Hst. apply start_after; [exact Hc'|exact Hb1|].
+           rewrite Hst. apply Hb2; exact Hs.
+        -- intros _ HE. unfold reader_position in HE. cbn [rbw] in HE. rewrite <- Hst.
+           apply (start_after_true _ _ bom'); [exact Hc'|exact Hb1|exact HE].
+        -- exact Hres.
+        -- left. exact Hq.
+        -- right. cbn [rbw rrd] in Hr. rewrite Hcap2 in Hr. eapply retry_ok_mono; [exact Hr|reflexivity|apply snd_bump|exact Hlen2].
+      * exfalso. unfold emit in Hres. destruct (bw_advance _ _); noio Hres.
+    + (* Quote: the verdict is a quoted scalar or Eof *)
+      left. destruct Hpend as [-> _]. cbn [app]. rewrite tk_unfold, item_quote.
+      destruct (rq_scan (cb ++ rest d) 0); exact I.
+    + (* Unquoted: resume the boundary scan at the old window length *)
+      destruct Hpend as [(Hne & Hfind & Hit) ->]. cbn [rbw rrd rbom] in Hres.
+      replace (Nat.ltb (length (win b2)) (length cb)) with false in Hres by (symmetry; apply Nat.ltb_ge; rewrite Hw2, app_length; lia).
+      assert (Hsk : skipn (length cb) (win b2) = bs) by (rewrite Hw2, skipn_app_le, skipn_all by lia; reflexivity).
+      unfold refill_unq_scan in Hres. rewrite Hsk in Hres.
+      destruct cb as [|a cb'] eqn:Ecb; [congruence|]. rewrite <- Ecb in *.
+      assert (Hfind' : find_from is_boundary cb' 0 = None) by (rewrite Ecb in Hfind; exact Hfind).
+      assert (Hlen : length cb = S (length cb')) by (rewrite Ecb; reflexivity).
+      assert (Htl : forall z, find_from is_boundary (tl (cb ++ z)) 0 = find_from is_boundary z (length cb')).
+      { intros z. rewrite Ecb. cbn [app tl]. rewrite (find_from_none_app _ cb' z 0 Hfind'). reflexivity. }
+      assert (Hsh : forall z, find_from is_boundary z (length cb) = option_map (fun i => i + 1) (find_from is_boundary z (length cb'))).
+      { intros z. rewrite Hlen. replace (S (length cb')) with (length cb' + 1) by lia. apply find_from_shift. }
+      destruct (find_from is_boundary bs (length cb)) as [i|] eqn:Escan.
+      * exfalso. unfold emit in Hres. destruct (bw_advance _ _); noio Hres.
+      * rewrite Hsh in Escan. destruct (find_from is_boundary bs (length cb')) as [i0|] eqn:E0; [discriminate|].
+        assert (Hpat : cb ++ rest d = patom PUnq (skipn (length (win b2) - length (win b2)) (win b2)) ++ rest d2).
+        { rewrite Nat.sub_diag. cbn [skipn patom]. exact Hstream. }
+        rewrite Hpat.
+        destruct (IH (mkreader b2 d2 bom) PUnq (length (win b2)) (length (win b2)) start' r') as [Hq|Hr]; cbn [rbw rrd rbom].
+        -- apply Hrok2.
+        -- lia.
+        -- rewrite Nat.sub_diag. cbn [skipn pend]. split; [|reflexivity]. split; [|split].
+           ++ rewrite Hw2. intros H0. apply app_eq_nil in H0. destruct H0; congruence.
+           ++ rewrite Hw2, Htl. replace (length cb') with (0 + length cb') by lia.
+              rewrite find_from_shift, <- (find_from_shift _ _ 0 (length cb')). cbn [Nat.add]. exact E0.
+           ++ intros y. destruct (Hit (bs ++ y)) as (m & Hm1 & Hm2). exists m.
+              rewrite Hw2, <- app_assoc. split; [rewrite app_length; lia|exact Hm2].
+        -- discriminate.
+        -- intros _ HE. apply Hstart2; [reflexivity|]. rewrite <- HE. unfold reader_position. cbn [rbw].
+           rewrite Hpos2, Nat.sub_diag, Nat.add_0_r. reflexivity.
+        -- exact Hres.
+        -- left. exact Hq.
+        -- right. cbn [rbw rrd] in Hr. rewrite Hcap2 in Hr. eapply retry_ok_mono; [exact Hr|reflexivity|lia|exact Hlen2].
+Qed.
+
+Theorem fallback_retry input fuel r r' :
+  rokf input r -> fallback fuel r = NErr E_Io r' ->
+  qeof (fst (tk (startb r) (stream_of r))) \/
+  retry_ok (cap (rbw r)) (length (rest (rrd r))) r' (tk (startb r) (stream_of r)).
+Proof.
+  intros Hrok Hres. destruct r as [b d bom]. unfold fallback, startb, stream_of, reader_position in *.
+  cbn [rbw rrd rbom] in *.
+  pose proof (fb_sound (S (S (length (win b)))) (Nat.eqb (bw_position b) 0) (win b) (win b) 0 bom (rest d)
+                eq_refl ltac:(lia) ltac:(destruct (N.eqb bom 0); lia)) as Hfb.
+  rewrite Nat.eqb_refl, andb_true_r in Hfb.
+  destruct (fb _ _ _ _ _ _) as [a bom'] eqn:Efb. destruct Hfb as [Hb1 Hfb]. cbn [fst snd] in Hb1, Hfb.
+  destruct a as [st' c' o'|t adv|site]; [| |contradiction].
+  - destruct Hfb as (Hc' & Hp' & Hb2 & (m & Hmle & Hm)). rewrite Hm, fst_bump.
+    destruct (refill_retry input fuel (mkreader b d bom') st' c' o'
+                (Nat.eqb (bw_position b) 0 && N.eqb bom 0 && Nat.eqb c' (length (win b))) r') as [Hq|Hr]; cbn [rbw rrd rbom].
+    + destruct Hrok as [H1 H2]. split; [exact H1|exact H2].
+    + exact Hc'.
+    + exact Hp'.
+    + intros Hs. unfold reader_position. cbn [rbw]. apply start_after; [exact Hc'|exact Hb1|apply Hb2; exact Hs].
+    + intros _ HE. unfold reader_position in HE. cbn [rbw] in HE.
+      apply (start_after_true _ _ bom'); [exact Hc'|exact Hb1|exact HE].
+    + exact Hres.
+    + left. exact Hq.
+    + right. cbn [rbw rrd] in Hr. eapply retry_ok_mono; [exact Hr|reflexivity|apply snd_bump|lia].
+  - exfalso. unfold emit in Hres. destruct (bw_advance _ _); noio Hres.
+Qed.
+
+Lemma rokf_wf input r : wf_bytes input -> rokf input r -> wf_bytes (win (rbw r)).
+Proof.
+  intros Hwf [(pre & Hin & _) _]. unfold wf_bytes in *. rewrite Hin in Hwf.
+  apply Forall_app in Hwf as [_ Hwf]. apply Forall_app in Hwf as [Hwf _]. exact Hwf.
+Qed.
+
+Theorem next_opt_retry_pos input fuel r r' :
+  wf_bytes input -> rokf input r -> next_opt fuel r = NErr E_Io r' ->
+  qeof (fst (tk (startb r) (stream_of r))) \/
+  retry_ok (cap (rbw r)) (length (rest (rrd r))) r' (tk (startb r) (stream_of r)).
+Proof.
+  intros Hwf Hrok Hres.
+  destruct (next_opt_fast_eq_fallback fuel r (rokf_wf _ _ Hwf Hrok)) as [Heq|(t & i & Hnth & Hf & Hn)].
+  - rewrite Heq in Hres. eapply fallback_retry; eassumption.
+  - exfalso. rewrite Hn in Hres. unfold emit in Hres. destruct (bw_advance _ _); noio Hres.
+Qed.
+
+Lemma stepf_mono input capv nr nr' res out : nr <= nr' -> stepf input capv nr res out -> stepf input capv nr' res out.
+Proof.
+  intros Hle. destruct res as [t s'| |k]; cbn [stepf]; [|auto|auto].
+  intros (r' & H1 & H2 & H3 & H4 & H5). exists r'. repeat split; try assumption; try apply H2. lia.
+Qed.
+
+(* RETRY: a call fails with E_Io at a position whose fault-free verdict is not a quoted scalar
+   and not Eof.  Calling next_opt again on the reader returned with the error either fails again
+   (a persistent fault) or returns exactly what the failed call would have returned without the
+   fault: the pending atom is seen again from its first byte, nothing is skipped or repeated. *)
+Theorem retry_outside_quote input fuel r r' :
+  wf_bytes input -> rokf input r -> length (rest (rrd r)) + 2 <= fuel ->
+  capok (rbw r) (rrd r) (snd (tk (startb r) (stream_of r))) ->
+  next_opt fuel r = NErr E_Io r' ->
+  ~ qeof (fst (tk (startb r) (stream_of r))) ->
+  (exists r'', next_opt fuel r' = NErr E_Io r'' /\ rokf input r'' /\ reader_position r'' <= length input)
+  \/ stepf input (cap (rbw r)) (length (rest (rrd r))) (fst (tk (startb r) (stream_of r))) (next_opt fuel r').
+Proof.
+  intros Hwf Hrok Hfuel Hcap Hres Hnq.
+  destruct (next_opt_retry_pos input fuel r r' Hwf Hrok Hres) as [Hq|(E1 & E2 & E3 & E4)]; [contradiction|].
+  pose proof (next_opt_rokf input fuel r Hrok) as Hrok'. rewrite Hres in Hrok'.
+  assert (Hcap' : capok (rbw r') (rrd r') (snd (tk (startb r') (stream_of r')))).
+  { eapply capok_mono; [exact Hcap|exact E3|exact E2|].
+    intros H0. rewrite H0 in E4. cbn [length] in E4. destruct (rest (rrd r')); [reflexivity|cbn [length] in E4; lia]. }
+  destruct (next_fault_sound input fuel r' Hwf Hrok' ltac:(lia) Hcap') as [H|H]; [left; exact H|right].
+  rewrite E1, E3 in H. eapply stepf_mono; [exact E4|exact H].
+Qed.
